@@ -40,6 +40,16 @@ def knownValueOverrides : List (String × String) :=
 
 theorem value_overrides_all_known : Generated.MLOverrides.valueOverrides = knownValueOverrides := by decide
 
+/-- The operators of the default domain that SAMPLE (a built model draws afresh on every run, so no value
+    computed from one sample may reach a reported shape) are all excluded from value propagation: the
+    exclusion set read from `_standard.py` on this run — empty if `propagate_values_onnx` no longer
+    consults it — contains every one of them. -/
+def samplingOps : List String :=
+  ["Bernoulli", "Dropout", "Multinomial", "RandomNormal", "RandomNormalLike", "RandomUniform", "RandomUniformLike"]
+
+theorem sampling_ops_guarded :
+    samplingOps.all (fun n => Generated.MLOverrides.samplingGuard.contains n) = true := by decide
+
 /-! ## ai.onnx.ml operators -/
 
 theorem binarizer_sound (x : ITy) (v : RtVal) (outs : List ITy) (w : List RtVal)
